@@ -142,6 +142,14 @@ def _impl(tier, seed, search):
             if ok: L.close('Twist3:compose', r[0], r[1], 1e-7, max(1.0, geom.tmag(r[1])), inp)
             ok, r = L.noraise('Twist3:inverse', lambda: (m(s1) @ m(s1.inv()), np.eye(4)), inp, 'Twist3.inv()')
             if ok: L.close('Twist3:inverse', r[0], r[1], 1e-7, max(1.0, geom.tmag(m(s1))), inp)
+            # a translational part up to 1e6 beside a rotational part of 1e-5 .. 1e-4 (and one almost aligned with an axis): nothing is "round-off"
+            for nm_, Sbig_ in (('huge v, small w', np.r_[np.array([8e5, -5e5, 3e5]) * float(g.uniform(0.1, 1.2)), np.array([4e-5, -3e-5, 3e-5]) * float(g.uniform(0.5, 2))]), ('w almost along x', np.r_[g.normal(size=3) * 1e3, 0.7, 1e-12, -3e-13])):
+                sb_ = Twist3(Sbig_); inpb = dict(S=Sbig_, other=s2.S)
+                ok, r = L.noraise(f'Twist3:identity({nm_})', lambda: ((sb_ * Twist3()).S, (Twist3() * sb_).S, m(sb_ * s2), m(sb_) @ m(s2), m((sb_ * s2).inv()), m(s2.inv() * sb_.inv())), inpb, 'Twist3 products with a very large translational part')
+                if ok:
+                    scb_ = max(1.0, float(np.linalg.norm(Sbig_[:3])))
+                    L.close(f'Twist3:S*identity({nm_})', r[0], Sbig_, 1e-7, scb_, inpb, what='S * Twist3() is not S when the translational part is very large beside the rotational part', sig='Twist3:identity:scaled'); L.close(f'Twist3:identity*S({nm_})', r[1], Sbig_, 1e-7, scb_, inpb, sig='Twist3:identity:scaled')
+                    L.close(f'Twist3:compose({nm_})', r[2], r[3], 1e-7, max(1.0, geom.tmag(r[3])), inpb, sig='Twist3:identity:scaled'); L.close(f'Twist3:(XY)^-1({nm_})', r[4], r[5], 1e-7, max(1.0, geom.tmag(r[5])), inpb, sig='Twist3:identity:scaled')
             ok, r = L.noraise('Twist3:identity', lambda: (m(Twist3() * s1), m(s1)), inp, 'Twist3() * S')
             if ok: L.close('Twist3:identity', r[0], r[1], 1e-7, max(1.0, geom.tmag(r[1])), inp)
             def tw2():
